@@ -42,6 +42,7 @@ type netParams struct {
 	TagSrc       string      `json:"tag_src,omitempty"`       // push: how the tag's source is spelled: "" (refs/tags/x) | short (x:refs/tags/x) | bare (x) | head (refs/heads/b0:refs/tags/x)
 	FailAt       int         `json:"fail_at,omitempty"`       // C09: a first attempt whose FailAt-th receiver-side store write fails, then the judged attempt
 	RevertTo     map[int]int `json:"revert_to,omitempty"`     // history: commit i carries the table of the older commit RevertTo[i]
+	PreOld       bool        `json:"pre_old,omitempty"`       // Pre: afterwards the remote also gets a branch `old` on a commit the earlier fetch left shallow
 	PreMid       int         `json:"pre_mid,omitempty"`       // Pre: the earlier position of the branch (0 = pick a random ancestor)
 	Pre          string      `json:"pre,omitempty"`           // fetch: "shallow-fetch" = an earlier `fetch --depth 1` of an ancestor of the branch left shallow commits behind
 	ShallowLocal int         `json:"shallow_local,omitempty"` // push: this many non-tip commits of the pushed history lack their table locally (a shallow clone)
